@@ -11,8 +11,12 @@ mod fam;
 static GLOBAL: alloc::Counting = alloc::Counting;
 
 fn main() {
-    std::panic::set_hook(Box::new(|_| {}));
     let args: Vec<String> = std::env::args().collect();
+    // panics of the code under test are expected and caught per case; keep them quiet while running
+    // cases, but let a panic of a *generator* be seen (it is a bug of this harness)
+    if args.len() < 2 || args[1] != "gen" {
+        std::panic::set_hook(Box::new(|_| {}));
+    }
     if args.len() < 2 {
         eprintln!("usage: mila-harness defects | gen FAMILY seed tier out | run FAMILY cases out");
         std::process::exit(2);
